@@ -494,7 +494,9 @@ class Context(Formattable):
                     parent,
                     show_hidden_frames,
                     capture_locals,
-                    "# " + (subctx.description or repr(subctx)),
+                    # (a child that could not be described is still there,
+                    # and its repr may well be what failed)
+                    "# " + (subctx.description or _one_line(_safe_repr(subctx))),
                 )
 
     def _format(
